@@ -112,6 +112,7 @@ def gen_case(rng):
         classes['M'] = mspec
         main = 'M'
     prog = []
+    nested = set()   # roots that are submodels of another root: mutated through, but not snapshot roots of their own
     sh = {}       # shadow bookkeeping per root
     counter = [0]
 
@@ -174,7 +175,8 @@ def gen_case(rng):
                    ['check'], ['endogenous']] + ([['preferred_names']] if classes['L']['alias'] else []),
                    'traced': {}, 'span_list': False, 'attrs': 0, 'subs': {'A': 'a', 'B': 'b'}}
         roots.append('l')
-    all_roots = lambda: roots + sorted(classes)   # noqa: E731
+        nested.update(['a', 'b'])
+    all_roots = lambda: [r for r in roots if r not in nested] + sorted(classes)   # noqa: E731
     prog.append({'c': 'snap', 'roots': all_roots()})
 
     def gen_op(r, depth=0):
@@ -264,6 +266,7 @@ def gen_case(rng):
                     sh[sub] = copy.deepcopy(sh[sh[src]['subs'][key]])
                     sh[dst]['subs'][key] = sub
                     roots.append(sub)
+                    nested.add(sub)
             roots.append(dst)
             prog.append({'c': 'snap', 'roots': all_roots()})
         elif u < 0.26 and kind != 'container':
@@ -436,6 +439,15 @@ def classify(relation, comp, what, changed_fields):
     return f'{relation}-shares:{comp}'
 
 
+def violate(rep, key, what, case):
+    """Record at most a handful of violations per key: the known findings fire hundreds of times and must not crowd a
+    new key out of the framework's global cap."""
+    if rep.dist['violation:' + key] < 6:
+        rep.violate(key, what, case)
+    else:
+        rep.dist['violation:' + key] += 1
+
+
 def twin(rep, relation, mutated_name, mutated, observed_name, observed, case, rebuild):
     """Mutate every mutable component of `mutated` (one at a time, on fresh twins), observe `observed`."""
     n = 0
@@ -457,14 +469,49 @@ def twin(rep, relation, mutated_name, mutated, observed_name, observed, case, re
             paths = hc.diff_paths(before, after)
             fields = sorted({top_field(p) for p in paths})
             key = classify(relation, comp, what, fields)
-            rep.violate(key, f'{relation}: mutating {mutated_name} ({what}) changed what is observed through '
+            violate(rep, key, f'{relation}: mutating {mutated_name} ({what}) changed what is observed through '
                         f'{observed_name}: {fields}', dict(case, pair=[relation, mutated_name, observed_name],
                                                             mutation=what))
     return n
 
 
+def diagnose_raise(rep, case, prep, exc):
+    """A generated program is valid by construction.  If it raises on the real code: when the failing command is the
+    construction of a *second* instance of a class (or the program ran before and fails when simply run again), the
+    instances interfere through shared state — a failing input of C11.  Anything else is reported as T breakage."""
+    w = hc.RealWorld(snap=False)
+    w.classes.update(prep.classes)
+    prep.restore()
+    built = set()
+    for cmd in case['prog']:
+        try:
+            with warnings.catch_warnings():
+                warnings.simplefilter('ignore')
+                w.exec(cmd)
+        except Exception as e:   # noqa: BLE001
+            if cmd['c'] == 'new' and cmd['cls'] in built:
+                rep.violate('sibling-construction-interferes',
+                            f'constructing a second instance of class {cmd["cls"]} raises {type(e).__name__}: an earlier '
+                            f'instance left state behind', dict(case, failing=cmd))
+                return True
+            return False
+        if cmd['c'] == 'new':
+            built.add(cmd['cls'])
+    return False
+
+
 def oracle(rep, case, prep=None):
     """Twin runs for one generated case: copies by each route, siblings, instance vs class."""
+    try:
+        return oracle_(rep, case, prep)
+    except Exception as e:   # noqa: BLE001
+        # the same program ran once already: failing on a plain re-run means state survived outside the objects
+        rep.violate('state-survives-outside-instances', f'a program that ran once raises {type(e).__name__} when run '
+                    f'again on new instances: {str(e)[:120]}', case)
+        return 0
+
+
+def oracle_(rep, case, prep=None):
     evaluations = 0
     roots = [r for r in case['roots'] if not r.startswith('c')]
     src_candidates = [r for r in roots if r in ('a', 'l')] or roots[:1]
@@ -483,12 +530,12 @@ def oracle(rep, case, prep=None):
             orig, cp = rebuild()
             # same class, observationally equal
             if type(cp) is not type(orig):
-                rep.violate('copy-class-differs', f'{route}: copy is a {type(cp).__name__}, original a '
+                violate(rep, 'copy-class-differs', f'{route}: copy is a {type(cp).__name__}, original a '
                             f'{type(orig).__name__}', dict(case, pair=['copy', src, route]))
             a, b = hc.observe(orig), hc.observe(cp)
             if a != b:
                 fields = sorted({top_field(p) for p in hc.diff_paths(a, b)})
-                rep.violate('copy-not-equal:' + ','.join(fields), f'{route}: copy differs from original in {fields}',
+                violate(rep, 'copy-not-equal:' + ','.join(fields), f'{route}: copy differs from original in {fields}',
                             dict(case, pair=['copy', src, route]))
             evaluations += twin(rep, 'copy', f'{src}', orig, f'{route}({src})', cp, case, rebuild)
             evaluations += twin(rep, 'copy', f'{route}({src})', cp, src, orig, case,
@@ -542,8 +589,8 @@ def patched_variant(full, fix_lists, fix_trace, classes):
     prog = [{'c': 'fix', 'on': True}] + list(full) if fix_lists else list(full)
     if fix_trace:
         def conv(op):
-            if op['o'] == 'traceT' and op['src'] == 'class':
-                op = dict(op, src='user', items=list(classes[op['cls']]['trace_vars']))
+            if op['o'] == 'traceT' and op['src'] in ('class', 'own'):
+                op = dict(op, src='user', items=list(classes[op['cls']].get('trace_vars') or ['?'] * op['n']))
             if op['o'] == 'inSub':
                 op = dict(op, op=conv(op['op']))
             return op
@@ -618,12 +665,13 @@ def run(ctx, rep):
     for i in range(n_prog):
         case = gen_case(rng)
         with pristine_globals():
+            prep = Prepared(case)
             try:
-                prep = Prepared(case)
                 w, full, real = run_case(case, prep)
             except Exception as e:   # noqa: BLE001
-                rep.disagree('program raised on the real code', case, 'model: no exception expected',
-                             f'{type(e).__name__}: {e}')
+                if not diagnose_raise(rep, case, prep, e):
+                    rep.disagree('program raised on the real code', case, 'model: no exception expected',
+                                 f'{type(e).__name__}: {e}')
                 continue
             batch.append((case, full, real))
             kinds = sorted(s['kind'] + ':' + s['style'] for s in case['classes'].values())
@@ -648,6 +696,20 @@ def run(ctx, rep):
         compare_T(ctx, rep, batch)
     fixed_scenarios(ctx, rep)
     rep.notes.append(f'{n_prog} programs (T), twin oracle on the first {min(n_prog, n_oracle)} of them + fixed scenarios')
+
+
+def run_fixed(ctx, rep, case):
+    prep = Prepared(case)
+    try:
+        w, full, real = run_case(case, prep)
+    except Exception as e:   # noqa: BLE001
+        if not diagnose_raise(rep, case, prep, e):
+            rep.disagree('program raised on the real code', case, 'model: no exception expected',
+                         f'{type(e).__name__}: {e}')
+        return
+    if not ctx.oracle_only:
+        compare_T(ctx, rep, [(case, full, real)])
+    rep.evaluations += oracle(rep, case, prep)
 
 
 def fixed_scenarios(ctx, rep):
@@ -686,10 +748,7 @@ def fixed_scenarios(ctx, rep):
                 prog.append({'c': 'snap', 'roots': ['a', 'b', 'c0', cname]})
                 case = {'classes': {cname: spec}, 'prog': prog, 'roots': ['a', 'b', 'c0'], 'ncopies': 1}
                 with pristine_globals():
-                    w, full, real = run_case(case)
-                    if not ctx.oracle_only:
-                        compare_T(ctx, rep, [(case, full, real)])
-                    rep.evaluations += oracle(rep, case)
+                    run_fixed(ctx, rep, case)
                 rep.case(json.dumps(case, sort_keys=True), nontrivial=True)
                 rep.dist['fixed:' + style + (':alias' if alias else '') + (':tracer-' + tstyle if tracer else '')] += 1
     # linkers
@@ -704,13 +763,10 @@ def fixed_scenarios(ctx, rep):
                     {'c': 'op', 'r': 'l', 'op': {'o': 'inSub', 'key': 'A', 'op': {'o': 'addVariable', 'x': 'V9', 'n': 3,
                                                                                        'model': True}}},
                     {'c': 'copy', 'r': 'c0', 'of': 'l', 'route': 'copy.deepcopy'},
-                    {'c': 'snap', 'roots': ['a', 'b', 'l', 'c0', 'M', 'L']}]
+                    {'c': 'snap', 'roots': ['l', 'c0', 'M', 'L']}]
             case = {'classes': classes, 'prog': prog, 'roots': ['a', 'b', 'l', 'c0'], 'ncopies': 1}
             with pristine_globals():
-                w, full, real = run_case(case)
-                if not ctx.oracle_only:
-                    compare_T(ctx, rep, [(case, full, real)])
-                rep.evaluations += oracle(rep, case)
+                run_fixed(ctx, rep, case)
             rep.case(json.dumps(case, sort_keys=True), nontrivial=True)
             rep.dist['fixed:linker:' + lstyle + (':alias' if alias else '')] += 1
 
